@@ -1,4 +1,5 @@
 import GoSSE.Proofs.GenEquivQueue
+import GoSSE.Proofs.GenEquivReplay
 import GoSSE.Proofs.QueueValid
 /-!
 # C09 — ValidReplayer replays exactly the unexpired events after the given ID
@@ -216,5 +217,48 @@ theorem translated_resize_is_model (fuel : Nat) (q : Queue) (n : Nat) :
 example :
     Gen.queue_resize 1 ({ buf := [some 3, none, some 1, some 2], head := 2, tail := 1, count := 3 } : Gen.queue (Option Nat)) 6
       = .ok { buf := [some 1, some 2, some 3, none, none, none], head := 0, tail := 3, count := 3 } := by rfl
+
+
+/-! #### `ValidReplayer` itself, as translated
+
+`GoSSE/Gen/Replay.lean` holds `ValidReplayer.shouldGC`, `doGC`, `GC`, `Put` and `Replay` as translated from
+replay.go (with `ensureID`, `findIDInQueue`, `queue.each`, … — Props/C08). A model replayer `v` whose clock reads
+`now` is `toGenValid mk now v`: `time.Time` values are nanoseconds since the zero Time (the model's `lastGC = none` is
+that zero; `lastGC ≠ some 0` and `0 < now` say that the clock never shows it), `Now` is the constant computation
+`now`, the slots are `gSlotV mk` (the zero slot ↦ the zero value, an entry ↦ its message, topics and expiry). -/
+
+/-- `doGC(now)` as translated: the collection loop and the shrink, from every state -/
+theorem translated_doGC_is_model (mk : Entry → Gen.Message) (now clock : Int) (hnow : 0 < now) (v : Valid) (fuel : Nat)
+    (hf : v.messages.count < fuel) :
+    GenEquiv.AgreesV (GenEquiv.toGenValid mk clock) (Gen.ValidReplayer_doGC fuel (GenEquiv.toGenValid mk clock v) now)
+      (v.doGC now) :=
+  GenEquiv.doGC_eq mk now clock hnow v fuel hf
+
+/-- `GC()` as translated -/
+theorem translated_GC_is_model (mk : Entry → Gen.Message) (now : Int) (hnow : 0 < now) (v : Valid) (fuel : Nat)
+    (hf : v.messages.count < fuel) :
+    GenEquiv.AgreesV (GenEquiv.toGenValid mk now) (Gen.ValidReplayer_GC fuel (GenEquiv.toGenValid mk now v)) (v.gc now) :=
+  GenEquiv.GC_eq mk now hnow v fuel hf
+
+/-- `ValidReplayer.Put` as translated: the collection schedule, `ensureID`, growth and the stored entry with
+`exp = now + ttl` — the model's verdict, entry and next state, from every state -/
+theorem translated_ValidPut_is_model (mk : Entry → Gen.Message) (now : Int) (hnow : 0 < now) (v : Valid)
+    (hl : v.lastGC ≠ some 0) (k : Nat) (id : EventID) (topics : List Bytes) (m : Gen.Message)
+    (hm : m.ID = GenEquiv.genID id)
+    (hmk : ∀ id' ex, mk { msg := k, id := id', topics := topics, exp := ex } = { m with ID := GenEquiv.genID id' })
+    (hc : ∀ c, v.currentID = some c → c + 1 < 18446744073709551616) (fuel : Nat)
+    (hf : ∀ c, v.currentID = some c → (fmtUint c).length < fuel) (hfc : v.messages.count < fuel) :
+    GenEquiv.PutAgrees mk (GenEquiv.toGenValid mk now) (v.put now k id topics)
+      (Gen.ValidReplayer_Put fuel (GenEquiv.toGenValid mk now v) (some m) topics) :=
+  GenEquiv.validPut_eq mk now hnow v hl k id topics m hm hmk hc fuel hf hfc
+
+/-- `ValidReplayer.Replay` as translated, with the model's subscriber: only entries that expire after `now` are
+sent, in the model's order; the model's error; the replayer unchanged -/
+theorem translated_ValidReplay_is_model (mk : Entry → Gen.Message) (hmk : GenEquiv.CarriesID mk) (now : Int) (v : Valid)
+    (sub : Sub) (fuel : Nat) (hf : v.messages.tail + v.messages.buf.length + 1 < fuel)
+    (hcount : v.messages.count < 9223372036854775808) (hft : GenEquiv.TopicsFuel fuel v.messages.buf sub) :
+    GenEquiv.ReplayAgrees mk sub (GenEquiv.toGenValid mk now v) (Valid.replay v now sub)
+      (Gen.ValidReplayer_Replay fuel (GenEquiv.toGenValid mk now v) (GenEquiv.gSub sub [])) :=
+  GenEquiv.validReplay_eq mk hmk now v sub fuel hf hcount hft
 
 end GoSSE.Props.C09
